@@ -258,6 +258,10 @@ func (dc *ClientDnsConnection) VersionHandshake() (err error) {
 		}, time.Second*time.Duration(i))
 		if err == nil {
 			response := resp.(*commands.VersionResponse)
+			if response.Err != nil {
+				// The server did answer, but it refused us (other protocol version, no free slot): there is no session
+				return errors.Wrapf(response.Err, "server refused the connection")
+			}
 			dc.userId = response.UserId
 
 			log.Debugf("Version ok, both using protocol v 0x%08x. You are user #%d", ProtocolVersion, dc.userId)
